@@ -106,12 +106,14 @@ class Harness(cm.BaseB):
             for R, C in ((2, 3), (8, 12), (16, 24), (4, 1), (1, 3), (8, 1), (26, 2)):
                 for order in ("plate,trough", "trough,plate", "plate,plate", "trough,trough", "trough,plate,trough"):
                     yield {"k": "pair", "R": R, "C": C, "order": order}
+                    # ... constructed from one and the same float64 array objects, the first one is then used
+                    yield {"k": "pair", "R": R, "C": C, "order": order, "share": True}
             return
         kind, R, C = chunk["kind"], chunk["R"], chunk["C"]
         ninit = len(initial_classes(kind, R, C))
         for li in range(len(LIMITS_C)):
             for ii in range(ninit):
-                for ni in range(6):
+                for ni in range(7):
                     yield {"k": "prod", "kind": kind, "R": R, "C": C, "lim": li, "init": ii, "names": ni}
 
     def one(self, case):
@@ -126,12 +128,27 @@ class Harness(cm.BaseB):
         cm.clear_caches()
         R, C = case["R"], case["C"]
         objs = []
+        share = case.get("share")
+        ip, it = (np.full((R, C), 5.0), np.full(C, 5.0)) if share else (5, 5)
         for i, kind in enumerate(case["order"].split(",")):
             if kind == "plate":
-                objs.append((kind, rt.Labware(f"L{i}", R, C, min_volume=0, max_volume=10, initial_volumes=5)))
+                objs.append((kind, rt.Labware(f"L{i}", R, C, min_volume=0, max_volume=10, initial_volumes=ip)))
             else:
-                objs.append((kind, rt.Trough(f"L{i}", R, C, min_volume=0, max_volume=10, initial_volumes=5)))
+                objs.append((kind, rt.Trough(f"L{i}", R, C, min_volume=0, max_volume=10, initial_volumes=it)))
         V = []
+        if share:
+            # the first labware is used and the caller re-uses its arrays: the others are still what was constructed
+            first_kind, first = objs[0]
+            first.add(well_id(0, C - 1), 2.5)
+            first.remove("A01", 1.0)
+            ip[...] = -3.0
+            it[...] = 1e9
+            e0 = [[5.0] * C for _ in range(1 if first_kind == "trough" else R)]
+            e0[0][C - 1] += 2.5
+            e0[0][0] -= 1.0
+            if first.volumes.tolist() != e0:
+                V.append(("C20/volumes", f"{first_kind} {R}x{C} built from the caller's array, after add/remove and after the caller overwrote its array: volumes {first.volumes.tolist()[:2]}"))
+            objs = objs[1:]
         for i, (kind, lw) in enumerate(objs):
             real_r = 1 if kind == "trough" else R
             V += self.verify(lw, kind, R, C, [[5.0] * C for _ in range(real_r)], 0, 10, {}, f"{kind} {R}x{C} (#{i + 1} of {case['order']})")
@@ -253,6 +270,10 @@ class Harness(cm.BaseB):
             elif ni == 4:
                 names = {"Z99": "nowhere"}
                 names_ok = False
+            elif ni == 6:
+                # an empty string (a blank spreadsheet cell) is a name too
+                names = {well_id(*sorted(empty)[-1]): ""} if empty else None
+                names_ok = not empty
             else:
                 names = {well_id(R, 0): "below"} if R < 26 else None
                 names_ok = R >= 26
@@ -276,6 +297,9 @@ class Harness(cm.BaseB):
             elif ni == 4:
                 names = [None] * (C + 1)
                 names_ok = False
+            elif ni == 6:
+                names = ["" if not cols_filled[c] else None for c in range(C)]
+                names_ok = all(cols_filled)
             else:
                 names = [None] * (C - 1) if C > 1 else [None, None]
                 names_ok = False
